@@ -47,6 +47,7 @@ enum {
     K_PAIRS_SLOWREF_NOT_VALUE_CHECKED,
     K_PT_SKIP_ON_CUT,
     K_PT_NESTED_TOL,
+    K_ABSENT_FLOAT_ZERO,
     K_NCOUNT
 };
 static const std::vector<std::string> CN = {"(state,variable)_pairs",
@@ -75,9 +76,10 @@ static const std::vector<std::string> CN = {"(state,variable)_pairs",
                                             "results_containing_Subs",
                                             "pairs_with_variable_present_but_no_point_judged",
                                             "piecewise_pieces_checked",
-                                            "pairs_not_value_checked(zeta/eta reference too slow beyond S1)",
+                                            "pairs_not_value_checked(zeta/eta beyond S1, nested stencil over MPFR functions beyond depth 2)",
                                             "points_skipped_real_point_on_a_branch_cut_of_the_state(not differentiable)",
-                                            "points_compared_with_nested_stencil_tolerance(1e-10)"};
+                                            "points_compared_with_nested_stencil_tolerance(1e-10)",
+                                            "variable_absent=>floating-point_zero(0.0 / 0.0+0.0i)_accepted"};
 
 static const std::set<TypeID> NONHOLO = {SYMENGINE_ABS,   SYMENGINE_CONJUGATE, SYMENGINE_SIGN, SYMENGINE_FLOOR,
                                          SYMENGINE_CEILING, SYMENGINE_TRUNCATE, SYMENGINE_MAX,  SYMENGINE_MIN,
@@ -85,6 +87,9 @@ static const std::set<TypeID> NONHOLO = {SYMENGINE_ABS,   SYMENGINE_CONJUGATE, S
 static const std::set<TypeID> DERIVSUBS = {SYMENGINE_DERIVATIVE, SYMENGINE_SUBS};
 // mpfr_zeta at 192 bits costs 1-30 ms per call: states containing these are value-checked only in S0/S1
 static const std::set<TypeID> SLOWREF = {SYMENGINE_ZETA, SYMENGINE_DIRICHLET_ETA};
+// 50-100 us per call; only a problem under nested stencils (64-512 calls per point)
+static const std::set<TypeID> MPFRREF = {SYMENGINE_GAMMA,      SYMENGINE_LOGGAMMA,   SYMENGINE_ERF,  SYMENGINE_ERFC,     SYMENGINE_POLYGAMMA,
+                                         SYMENGINE_LOWERGAMMA, SYMENGINE_UPPERGAMMA, SYMENGINE_BETA, SYMENGINE_LAMBERTW};
 
 // Every non-holomorphic node must have exactly real arguments at the point (so that the real-direction
 // stencil and the chain rule agree) and must be away from its kink by a margin far larger than the stencil.
@@ -319,6 +324,15 @@ static bool is_int_zero(const Basic &e)
 {
     return is_a<Integer>(e) && down_cast<const Integer &>(e).is_zero();
 }
+// a floating-point zero (0.0, -0.0, 0.0+0.0i): still exactly zero in value
+static bool is_float_zero(const Basic &e)
+{
+    if (is_a<RealDouble>(e))
+        return down_cast<const RealDouble &>(e).i == 0.0;
+    if (is_a<ComplexDouble>(e))
+        return down_cast<const ComplexDouble &>(e).i.real() == 0.0 && down_cast<const ComplexDouble &>(e).i.imag() == 0.0;
+    return false;
+}
 // a polynomial object with an empty dictionary (read through the containers, not through the library's is_zero)
 static bool is_zero_poly(const Basic &e)
 {
@@ -348,7 +362,8 @@ static std::string culprit_absent(const Basic &e, const RCP<const Symbol> &v)
         if (my_free(*a).count(id))
             continue;
         try {
-            if (!is_int_zero(*a->diff(v)))
+            RCP<const Basic> da = a->diff(v);
+            if (!is_int_zero(*da) && !is_float_zero(*da))
                 return culprit_absent(*a, v);
         } catch (std::exception &) {
         }
@@ -420,6 +435,9 @@ static void check_state(const State &S, Ctx &c)
             if (is_int_zero(*d1)) {
                 c.count(K_ABSENT_ZERO);
                 c.outcome("absent=>0");
+            } else if (is_float_zero(*d1)) {
+                c.count(K_ABSENT_FLOAT_ZERO);
+                c.outcome("absent=>" + type_code_name(d1->get_type_code()) + " zero");
             } else
                 c.violation(culprit_absent(e, v),
                             what0 + ": " + vn + " does not occur free in the expression but diff returned " + sstr(d1) + " [" + k1 + "]");
@@ -432,7 +450,9 @@ static void check_state(const State &S, Ctx &c)
         if (contains_type(*d1, {SYMENGINE_SUBS}))
             c.count(K_RESULT_HAS_SUBS);
         std::string what = what0 + " returned " + sstr(d1) + " [" + k1 + "]";
-        if (S.depth > 1 && (contains_type(e, SLOWREF) || contains_type(*d1, SLOWREF))) {
+        if (S.depth > 1
+            && (contains_type(e, SLOWREF) || contains_type(*d1, SLOWREF)
+                || (S.depth > 2 && contains_type(e, {SYMENGINE_DERIVATIVE}) && contains_type(e, MPFRREF)))) {
             c.count(K_PAIRS_SLOWREF_NOT_VALUE_CHECKED);
             continue;
         }
@@ -496,7 +516,7 @@ static void run_states(const std::string &name, int first, int last)
     cs.name = name;
     cs.n = last - first;
     cs.counter_names = CN;
-    cs.hang_s = 30;
+    cs.hang_s = 150; // nested stencils over MPFR special functions take seconds when the machine is oversubscribed
     cs.desc = [&, first](long long i) { return "diff of state " + BD.SS.S[first + i].recipe + " wrt x,y,z"; };
     cs.crash_sig = [&, first](long long i, const std::string &oc) { return "diff:" + oc + ":" + cls(*BD.SS.S[first + i].e); };
     cs.body = [&, first](long long i, Ctx &c) {
@@ -872,6 +892,9 @@ int main(int argc, char **argv)
         for (int i = 0; i < n2; i++) {
             const State &S = BD.SS.S[i];
             if (!contains_type(*S.e, i < n1 ? OPAQUE : FS))
+                continue;
+            // g(s1, s0) / g(s0, s1) states of the thorough S2 layer are checked themselves but not differentiated twice
+            if (i >= n1 && is_a<FunctionSymbol>(*S.e) && down_cast<const FunctionSymbol &>(*S.e).get_name() == "g")
                 continue;
             for (int vi = 0; vi < 2; vi++) {
                 try {
